@@ -19,6 +19,7 @@ EXPLANATION = (
     "or a full traversal - first index row, second column - reads a vector source at the position of the same loop step, and never resizes the sink; "
     "(R3) kernels that write more than one element validate every index before the first write (otherwise a failing assignment leaves a partial write); "
     "(R4) the assignment / op-assignment dispatchers cover the same kinds as the read dispatchers. Not decided: value-level resize semantics."
+    ' (R2, extended) an assignment kernel that writes the sink through fewer index positions than the assignment form has (a linear offset) is reported: the single bounds check against len() lets an out-of-range row or column address another element.'
 )
 
 OPS = {"Add": "+", "Sub": "-", "Mul": "*", "Div": "/"}
